@@ -41,9 +41,9 @@ theorem gen_code_shape :
     Gen.Codec.pointG1_marshalOrder = ["pgtemp.x", "pgtemp.y"] ∧
     Gen.Codec.pointG1_unmarshalOrder = ["p.g.x", "p.g.y"] ∧
     Gen.Codec.pointG1_montEncodeOrder = ["p.g.x", "p.g.y"] ∧
-    Gen.Codec.pointG2_marshalOrder = ["p.g.x.x", "p.g.x.y", "p.g.y.x", "p.g.y.y"] ∧
-    Gen.Codec.pointG2_unmarshalOrder = Gen.Codec.pointG2_marshalOrder ∧
-    Gen.Codec.pointG2_montEncodeOrder = Gen.Codec.pointG2_marshalOrder ∧
+    Gen.Codec.pointG2_marshalOrder = ["pgtemp.x.x", "pgtemp.x.y", "pgtemp.y.x", "pgtemp.y.y"] ∧
+    Gen.Codec.pointG2_unmarshalOrder = ["p.g.x.x", "p.g.x.y", "p.g.y.x", "p.g.y.y"] ∧
+    Gen.Codec.pointG2_montEncodeOrder = Gen.Codec.pointG2_unmarshalOrder ∧
     Gen.Codec.pointGT_marshalOrder = ["p.g.x.x.x", "p.g.x.x.y", "p.g.x.y.x", "p.g.x.y.y", "p.g.x.z.x",
       "p.g.x.z.y", "p.g.y.x.x", "p.g.y.x.y", "p.g.y.y.x", "p.g.y.y.y", "p.g.y.z.x", "p.g.y.z.y"] ∧
     Gen.Codec.pointGT_unmarshalOrder = Gen.Codec.pointGT_marshalOrder ∧
